@@ -18,12 +18,29 @@ CHECKS = {
             'DER; every signature is offered to all verification interfaces; negatives enumerate every bit of DER, '
             'message and ID, boundary (r,s) pairs, DER mutants, foreign keys and ID-length neighbours.',
             '4/C01', TRUSTED),
+    'C02': ('exploration',
+            'sanitized execution (ASan+UBSan) with an independent GB/T 32918.4 model replaying the interposed entropy; '
+            'must-fail oracles over complete bit-flip neighbourhoods and crafted C1 points (incl. invalid-curve)',
+            'Every plaintext length 1..255 goes through do_encrypt/encrypt (forced nonces), fixed-point-size and streaming '
+            'interfaces; ciphertexts equal the reference value for the nonce found in the entropy log, decrypt through all '
+            'three decryption interfaces, reference-made ciphertexts decrypt; negatives: every DER bit, off-curve / '
+            'out-of-range / wrong-curve C1 (with consistent C3), truncation, extension, DER mutants, foreign keys, all-zero '
+            'KDF output; ECDH compared with d_A*d_B*G for boundary scalars.',
+            '4/C02', TRUSTED),
     'C03': ('exploration',
             'sanitized execution (ASan+UBSan) with reference-model oracle (hashlib / independent SM3) over seeded chunkings',
             'Every digest/HMAC/PBKDF2/HKDF/KDF interface is run on dense length ranges under one-shot, byte-wise, '
             'random and block-edge partitions in the default, SMALL_FOOTPRINT (and SM3_SSE in thorough) builds and '
             'compared byte for byte with an independent implementation; thorough adds >2^32-bit messages.',
             '4/C03', TRUSTED),
+    'C08': ('exploration',
+            'two real endpoints in one sanitized process (ASan+UBSan) over a socketpair with shim-injected short '
+            'reads/writes and yields; monitors: negotiated-state equality and byte-stream conservation of a counter pattern',
+            '3 protocols x {server-auth, mutual} x chain depth 1..3, several seeded I/O fragmentation schedules each; both '
+            'handshakes must return 1 with identical secrets/keys/IVs/suite/version; write sizes 1..50000 and read buffers '
+            '1..20000 in one-way and alternating plans; every byte must arrive once, in order, unmodified; nothing may '
+            'surface after an orderly close.',
+            '4/C08', TRUSTED),
 }
 
 NOT_YET = {}
